@@ -8,11 +8,12 @@ flag — never by a run that was cancelled, never while the matcher waits for th
 every history of injector / clone / drop / reparse / restart / tick events, whatever the lock outcomes and wherever runs
 were cancelled, the snapshot's match list is exactly the matches (with their scores) of the snapshot's pattern among a
 duplicate-free set of initialised items of the snapshot's stream whose size is the reported item count, in sorted order.
-Patterns are non-empty (as in `C07_Protocol`; the empty pattern is `C06_trivial_run_contract`). -/
+For the empty pattern (`emp`, as in `C07_Protocol`) the order is insertion order instead. -/
 namespace NucleoVerif.Nu
 
 variable (score : Nat → Item → Option Nat) (len : Item → Nat)
 variable (S : Nat → Nat → Option Item)
+variable (emp : Nat → Bool)
 
 /-! ## what a completed run leaves: right, and sorted by the items' true lengths -/
 
@@ -20,75 +21,10 @@ theorem matchLess_congr (it1 it2 : Nat → Option Item) (a b : Match) (ha : it1 
     matchLess len it1 a b = matchLess len it2 a b := by
   unfold matchLess; rw [ha, hb]
 
-/-- the in-flight list after a run with a non-empty pattern: some of the old in-flight indices (the dropped ones were seen
-    published when the run began) and the unpublished new ones -/
-theorem run_inFlight (w : Worker) (st : PStatus) (o : Obs) (bk : BK w) (hc : w.lastSnapshot ≤ o.count)
-    (hord : ∀ l, (o.inFlightOrder l).Perm l) :
-    ∃ old : List Nat, (∀ i ∈ w.inFlight, i ∉ old → (o.seen0 i).isSome = true) ∧
-      (Worker.run score len w st false false o).1.inFlight.Perm
-        (old ++ ((List.range (o.count - w.lastSnapshot)).map (· + w.lastSnapshot)).filter (fun i => (o.seen1 i).isNone)) ∧
-      (Worker.run score len w st false false o).1.lastSnapshot = o.count := by
-  have hb : (w.begin false) = { w with running := true, wasCanceled := false } := by simp [Worker.begin]
-  have hsortp := (C06_in_flight_sorted w.inFlight).2
-  have rs := resetMatches_spec (w.begin false) o.seen0 (by rw [hb]; exact bk.below) (by rw [hb]; exact bk.nodup)
-  rw [hb] at rs
-  simp only at rs
-  obtain ⟨_, r2, r3, _⟩ := rs
-  have hstill_cov : ∀ i ∈ w.inFlight, i ∉ (sortNat w.inFlight).filter (fun i => (o.seen0 i).isNone) → (o.seen0 i).isSome = true := by
-    intro i hi hn
-    cases h : o.seen0 i with
-    | some _ => rfl
-    | none => exact absurd (List.mem_filter.mpr ⟨hsortp.symm.subset hi, by simp [h]⟩) hn
-  unfold Worker.run
-  simp only [Bool.false_eq_true, if_false]
-  rw [hb]
-  have fb := finish_bookkeeping len (Worker.scorePass score { w with running := true, wasCanceled := false } st o).1
-    (Worker.scorePass score { w with running := true, wasCanceled := false } st o).2.1
-    (Worker.scorePass score { w with running := true, wasCanceled := false } st o).2.2 o
-  have key : ∃ old : List Nat, (∀ i ∈ w.inFlight, i ∉ old → (o.seen0 i).isSome = true) ∧
-      (Worker.scorePass score { w with running := true, wasCanceled := false } st o).1.inFlight.Perm
-        (old ++ ((List.range (o.count - w.lastSnapshot)).map (· + w.lastSnapshot)).filter (fun i => (o.seen1 i).isNone)) ∧
-      (Worker.scorePass score { w with running := true, wasCanceled := false } st o).1.lastSnapshot = o.count := by
-    unfold Worker.scorePass
-    simp only
-    by_cases hst : st = .rescore
-    · simp only [hst, if_true]
-      generalize hw1 : resetMatches { w with running := true, wasCanceled := false } o.seen0 = w1 at r2 r3
-      split
-      · have pt := processTrivial_spec w1 o.seen1 o.count (by rw [r3]; exact hc)
-        rw [r2, r3] at pt
-        refine ⟨_, hstill_cov, ?_, ?_⟩
-        · show (rescore score _ o).1.inFlight.Perm _
-          unfold rescore; simp only; rw [pt.2.1]
-        · show (rescore score _ o).1.lastSnapshot = _
-          unfold rescore; simp only; exact pt.2.2.1
-      · have pn := processNew_bookkeeping score w1 o hord
-        rw [r2, r3] at pn
-        refine ⟨_, fun i hi hn => ?_, pn.1, pn.2⟩
-        cases h : o.seen0 i with
-        | some _ => rfl
-        | none =>
-          exact absurd (List.mem_filter.mpr ⟨List.mem_filter.mpr ⟨hsortp.symm.subset hi, by simp [h]⟩, by simp [h]⟩) hn
-    · simp only [hst, if_false]
-      split
-      · have pt := processTrivial_spec { w with running := true, wasCanceled := false } o.seen1 o.count hc
-        refine ⟨w.inFlight, fun i hi hn => absurd hi hn, ?_, ?_⟩
-        · show (rescore score _ o).1.inFlight.Perm _
-          unfold rescore; simp only; rw [pt.2.1]
-        · show (rescore score _ o).1.lastSnapshot = _
-          unfold rescore; simp only; exact pt.2.2.1
-      · have pn := processNew_bookkeeping score { w with running := true, wasCanceled := false } o hord
-        refine ⟨_, fun i hi hn => ?_, pn.1, pn.2⟩
-        cases h : o.seen0 i with
-        | some _ => rfl
-        | none => exact absurd (List.mem_filter.mpr ⟨hi, by simp [h]⟩) hn
-  obtain ⟨old, h1, h3, h4⟩ := key
-  exact ⟨old, h1, by rw [fb.1]; exact h3, by rw [fb.2]; exact h4⟩
-
 /-- every index a completed run accounts for was observed as what the stream really holds there -/
 theorem run_seen (Sx : Nat → Option Item) (w : Worker) (st : PStatus) (o : Obs) (bk : BK w) (env : RunEnv Sx w o) :
     ∀ i ∈ processed (Worker.run score len w st false false o).1, o.seen1 i = Sx i := by
-  obtain ⟨old, hcov, hperm, hlast⟩ := run_inFlight score len w st o bk env.countGe env.order
+  obtain ⟨old, hcov, hperm, hlast⟩ := run_inFlight score len w st false o bk env.countGe env.order
   intro i hi
   unfold processed at hi
   rw [mem_keepIdx, hlast] at hi
@@ -114,7 +50,10 @@ theorem run_seen (Sx : Nat → Option Item) (w : Worker) (st : PStatus) (o : Obs
 /-- a worker that holds a completed result -/
 structure Res (Sx : Nat → Option Item) (w : Worker) : Prop where
   good : Good score Sx w
-  sorted : w.hits.Pairwise (mle len Sx)
+  /-- a non-empty pattern: sorted by (score desc, true item length asc, index asc) -/
+  sorted : emp w.pattern = false → w.hits.Pairwise (mle len Sx)
+  /-- the empty pattern: every accounted item, in insertion order -/
+  insertion : emp w.pattern = true → w.hits = (processed w).map mk0
 
 theorem idealHits_mem_idx (Sx : Nat → Option Item) (p : Nat) (P : List Nat) (m : Match) (h : m ∈ idealHits score Sx p P) : m.idx ∈ P := by
   have : m.idx ∈ (idealHits score Sx p P).map (·.idx) := List.mem_map_of_mem h
@@ -124,7 +63,7 @@ theorem idealHits_mem_idx (Sx : Nat → Option Item) (p : Nat) (P : List Nat) (m
 /-- **a completed run leaves a result** (from each of the three start conditions) -/
 theorem run_res (Sx : Nat → Option Item) (w : Worker) (st : PStatus) (o : Obs)
     (hstart : (st = .rescore ∧ BK w) ∨ (st = .update ∧ Loose score Sx w.pattern w) ∨ (st = .unchanged ∧ Good score Sx w))
-    (renv : RunEnv Sx w o) : Res score len Sx (Worker.run score len w st false false o).1 := by
+    (renv : RunEnv Sx w o) (hne : emp w.pattern = false) : Res score len emp Sx (Worker.run score len w st false false o).1 := by
   have hbk : BK w := by
     rcases hstart with ⟨_, b⟩ | ⟨_, l⟩ | ⟨_, g⟩
     · exact b
@@ -141,7 +80,8 @@ theorem run_res (Sx : Nat → Option Item) (w : Worker) (st : PStatus) (o : Obs)
     · have h := C06_unchanged_run_contract score len Sx w o g.bk renv g.right
       exact ⟨h.1, h.2.1, h.2.2.1⟩
   obtain ⟨h1, h2, h3⟩ := hc
-  refine ⟨⟨h1, h3⟩, ?_⟩
+  have hpat : (Worker.run score len w st false false o).1.pattern = w.pattern := (Worker.run_runLike score len st false false o).pattern w
+  refine ⟨⟨h1, h3⟩, fun _ => ?_, fun he => by rw [hpat, hne] at he; cases he⟩
   have hseen := run_seen score len Sx w st o hbk renv
   have hm : ∀ m ∈ (Worker.run score len w st false false o).1.hits, o.seen1 m.idx = Sx m.idx :=
     fun m hm => hseen _ (idealHits_mem_idx score Sx _ _ m (h1.subset hm))
@@ -151,85 +91,82 @@ theorem run_res (Sx : Nat → Option Item) (w : Worker) (st : PStatus) (o : Obs)
   rw [← matchLess_congr len o.seen1 Sx b a (hm b hb) (hm a ha)]
   exact hab
 
-theorem Res.congr {Sx : Nat → Option Item} {w w' : Worker} (r : Res score len Sx w) (h1 : w'.hits = w.hits) (h2 : w'.inFlight = w.inFlight)
-    (h3 : w'.lastSnapshot = w.lastSnapshot) (h4 : w'.pattern = w.pattern) : Res score len Sx w' :=
-  ⟨r.good.congr score h1 h2 h3 h4, by rw [h1]; exact r.sorted⟩
-
-/-- the worker a pending run effectively starts from (the cleared state after a restart), with its start condition -/
-theorem startWorker (p : Pending) (w : Worker) (o : Obs) (hs : StartOk score S p w) :
-    ∃ w0 : Worker, w0 = (if p.cleared then w.clearedState else w) ∧ w0.stream = w.stream ∧ w0.pattern = w.pattern ∧
-      Worker.run score len w p.status p.cleared false o = Worker.run score len w0 p.status false false o ∧
-      StartKeep score S p.status w0 := by
-  cases hc : p.cleared with
-  | true =>
-    refine ⟨w.clearedState, by simp, rfl, rfl, by rw [run_cleared], ?_⟩
-    have g : Good score (S w.clearedState.stream) w.clearedState := Good.of_empty score _ _ rfl rfl rfl
-    cases hst : p.status with
-    | rescore => exact Or.inl ⟨rfl, BK_cleared w⟩
-    | update => exact Or.inr (Or.inl ⟨rfl, g.loose score (by show 0 < PLACE; simp [PLACE])⟩)
-    | unchanged => exact Or.inr (Or.inr ⟨rfl, g⟩)
-  | false =>
-    refine ⟨w, by simp, rfl, rfl, rfl, ?_⟩
-    rcases hs with h | h
-    · rw [hc] at h; cases h
-    · exact h
+theorem Res.congr {Sx : Nat → Option Item} {w w' : Worker} (r : Res score len emp Sx w) (h1 : w'.hits = w.hits) (h2 : w'.inFlight = w.inFlight)
+    (h3 : w'.lastSnapshot = w.lastSnapshot) (h4 : w'.pattern = w.pattern) : Res score len emp Sx w' :=
+  ⟨r.good.congr score h1 h2 h3 h4, fun he => by rw [h1]; exact r.sorted (by rw [← h4]; exact he),
+   fun he => by
+    have : processed w' = processed w := by unfold processed; rw [h2, h3]
+    rw [h1, this]; exact r.insertion (by rw [← h4]; exact he)⟩
 
 /-- **joining a run that was not cancelled**: the worker holds a result -/
-theorem join_res (p : Pending) (w w' : Worker) (mc : Bool) (hs : StartOk score S p w) (hr : RunsAs score len S p w w' mc)
-    (hnc : w'.wasCanceled = false) : Res score len (S w.stream) w' ∧ w'.stream = w.stream := by
+theorem join_res (hemp : EmpOk score emp) (p : Pending) (w w' : Worker) (mc : Bool) (hs : StartOk score S p w)
+    (hpub : p.cleared = false → Pub (S w.stream) w) (hr : RunsAs score len S emp p w w' mc)
+    (hnc : w'.wasCanceled = false) : Res score len emp (S w.stream) w' ∧ w'.stream = w.stream := by
   obtain ⟨o, hw', ho⟩ := hr
-  have rl := Worker.run_runLike score len p.status p.cleared false o
+  have rl := Worker.run_runLike score len p.status p.cleared (emp w.pattern) o
   have hstr : w'.stream = w.stream := by rw [hw']; exact rl.stream w
-  obtain ⟨w0, e0, e1, _, e3, e4⟩ := startWorker score len S p w o hs
+  have hpat : w'.pattern = w.pattern := by rw [hw']; exact rl.pattern w
+  obtain ⟨w0, e0, e1, e2, e3, e4, e5⟩ := startWorker score len S p w (emp w.pattern) o hs hpub
   rw [← e0] at ho
-  have hstart : (p.status = .rescore ∧ BK w0) ∨ (p.status = .update ∧ Loose score (S w0.stream) w0.pattern w0) ∨
-      (p.status = .unchanged ∧ Good score (S w0.stream) w0) := e4
-  rcases ho.cancel with ⟨_, hcan⟩ | renv
-  · have hlt : w0.lastSnapshot < PLACE := by have := ho.env.countGe; have := ho.env.countLt; omega
-    have hs' : (p.status = .rescore ∧ BK w0) ∨ Loose score (S w0.stream) w0.pattern w0 := by
-      rcases hstart with ⟨h1, h2⟩ | ⟨_, l⟩ | ⟨_, g⟩
-      · exact Or.inl ⟨h1, h2⟩
-      · exact Or.inr l
-      · exact Or.inr (g.loose score hlt)
-    obtain ⟨_, hwc, _⟩ := C06_cancelled_run_loose score len (S w0.stream) w0 p.status o ho.env hs' hcan
-    rw [← e3, ← hw', hnc] at hwc
-    cases hwc
-  · have r := run_res score len (S w0.stream) w0 p.status o hstart renv
-    rw [← e3, ← hw', e1] at r
-    exact ⟨r, hstr⟩
+  by_cases he : emp w.pattern = true
+  · rw [he] at e3 hw'
+    obtain ⟨g, _, _, hh⟩ := run_emp_good score len emp hemp (S w0.stream) w0 p.status o (e4.bk score S) ho.env e5 (by rw [e2]; exact he)
+    rw [← e3, ← hw'] at g hh
+    rw [e1] at g
+    exact ⟨⟨g, fun h => (by rw [hpat, he] at h; cases h), fun _ => hh⟩, hstr⟩
+  · have he' : emp w.pattern = false := by simpa using he
+    rw [he'] at e3 hw'
+    have hstart : (p.status = .rescore ∧ BK w0) ∨ (p.status = .update ∧ Loose score (S w0.stream) w0.pattern w0) ∨
+        (p.status = .unchanged ∧ Good score (S w0.stream) w0) := e4
+    rcases ho.cancel with ⟨_, hcan⟩ | renv
+    · have hlt : w0.lastSnapshot < PLACE := by have := ho.env.countGe; have := ho.env.countLt; omega
+      have hs' : (p.status = .rescore ∧ BK w0) ∨ Loose score (S w0.stream) w0.pattern w0 := by
+        rcases hstart with ⟨h1, h2⟩ | ⟨_, l⟩ | ⟨_, g⟩
+        · exact Or.inl ⟨h1, h2⟩
+        · exact Or.inr l
+        · exact Or.inr (g.loose score hlt)
+      obtain ⟨_, hwc, _⟩ := C06_cancelled_run_loose score len (S w0.stream) w0 p.status o ho.env hs' hcan
+      rw [← e3, ← hw', hnc] at hwc
+      cases hwc
+    · have r := run_res score len emp (S w0.stream) w0 p.status o hstart renv (by rw [e2]; exact he')
+      rw [← e3, ← hw', e1] at r
+      exact ⟨r, hstr⟩
 
 /-! ## the snapshot through the protocol -/
 
 /-- the snapshot is a copy of a worker that held a completed result (the emptied snapshot of `restart(true)` and the
     initial one are copies of an empty worker) -/
-def SnapOk (snap : Snapshot) : Prop := ∃ w : Worker, Res score len (S w.stream) w ∧ snap = Snapshot.update snap w
+def SnapOk (snap : Snapshot) : Prop := ∃ w : Worker, Res score len emp (S w.stream) w ∧ snap = Snapshot.update snap w
 
 structure Q06 (n : Nucleo) : Prop where
   p : P07 score S n
-  snap : SnapOk score len S n.snapshot
-  res : n.pending = none → n.worker.wasCanceled = false → Res score len (S n.worker.stream) n.worker
+  snap : SnapOk score len S emp n.snapshot
+  res : n.pending = none → n.worker.wasCanceled = false → Res score len emp (S n.worker.stream) n.worker
 
 theorem Res.of_empty (Sx : Nat → Option Item) (w : Worker) (h1 : w.hits = []) (h2 : w.lastSnapshot = 0) (h3 : w.inFlight = []) :
-    Res score len Sx w := ⟨Good.of_empty score Sx w h1 h2 h3, by rw [h1]; exact List.Pairwise.nil⟩
+    Res score len emp Sx w :=
+  ⟨Good.of_empty score Sx w h1 h2 h3, fun _ => by rw [h1]; exact List.Pairwise.nil, fun _ => by
+    have : processed w = [] := by unfold processed keepIdx; rw [h2]; rfl
+    rw [h1, this]; rfl⟩
 
-theorem Q06.new : Q06 score len S Nucleo.new :=
-  ⟨P07.new score S, ⟨Nucleo.new.worker, Res.of_empty score len _ _ rfl rfl rfl, rfl⟩, fun _ _ => Res.of_empty score len _ _ rfl rfl rfl⟩
+theorem Q06.new : Q06 score len S emp Nucleo.new :=
+  ⟨P07.new score S, ⟨Nucleo.new.worker, Res.of_empty score len emp _ _ rfl rfl rfl, rfl⟩, fun _ _ => Res.of_empty score len emp _ _ rfl rfl rfl⟩
 
-theorem Q06.restart {n : Nucleo} (h : Q06 score len S n) (c : Bool) : Q06 score len S (n.restart c) := by
+theorem Q06.restart {n : Nucleo} (h : Q06 score len S emp n) (c : Bool) : Q06 score len S emp (n.restart c) := by
   refine ⟨h.p.restart score S c, ?_, h.res⟩
   cases c with
   | false => exact h.snap
   | true =>
     exact ⟨{ running := false, hits := [], pattern := n.snapshot.pattern, wasCanceled := false, lastSnapshot := 0, inFlight := [], stream := n.nextStream },
-      Res.of_empty score len _ _ rfl rfl rfl, rfl⟩
+      Res.of_empty score len emp _ _ rfl rfl rfl, rfl⟩
 
 /-- `tick_inner` with the lock held, from a joined state -/
-theorem locked_snap (m : Nucleo) (c : Bool) (st : PStatus) (k : Nat) (hp : m.pending = none) (hsnap : SnapOk score len S m.snapshot)
-    (hres : m.worker.wasCanceled = false → Res score len (S m.worker.stream) m.worker) :
-    SnapOk score len S (tickInnerLocked m c st k).1.snapshot ∧
+theorem locked_snap (m : Nucleo) (c : Bool) (st : PStatus) (k : Nat) (hp : m.pending = none) (hsnap : SnapOk score len S emp m.snapshot)
+    (hres : m.worker.wasCanceled = false → Res score len emp (S m.worker.stream) m.worker) :
+    SnapOk score len S emp (tickInnerLocked m c st k).1.snapshot ∧
     ((tickInnerLocked m c st k).1.pending = none → (tickInnerLocked m c st k).1.worker.wasCanceled = false →
-      Res score len (S (tickInnerLocked m c st k).1.worker.stream) (tickInnerLocked m c st k).1.worker) := by
-  have hsa : SnapOk score len S m.snapAfter := by
+      Res score len emp (S (tickInnerLocked m c st k).1.worker.stream) (tickInnerLocked m c st k).1.worker) := by
+  have hsa : SnapOk score len S emp m.snapAfter := by
     unfold Nucleo.snapAfter
     split
     · rename_i hh
@@ -244,17 +181,18 @@ theorem locked_snap (m : Nucleo) (c : Bool) (st : PStatus) (k : Nat) (hp : m.pen
   split
   · exact ⟨hsa, fun h => by simp at h⟩
   · refine ⟨hsa, fun _ hwc => ?_⟩
-    show Res score len (S m.workerAfter.stream) m.workerAfter
+    show Res score len emp (S m.workerAfter.stream) m.workerAfter
     rw [a6]
-    exact (hres (by rw [← a5]; exact hwc)).congr score len a1 a2 a3 a4
+    exact (hres (by rw [← a5]; exact hwc)).congr score len emp a1 a2 a3 a4
 
 /-- joining the run in flight (if any) -/
-theorem join_snap (n : Nucleo) (run : Worker → Worker) (mc : Bool)
-    (hres : n.pending = none → n.worker.wasCanceled = false → Res score len (S n.worker.stream) n.worker)
+theorem join_snap (hemp : EmpOk score emp) (n : Nucleo) (run : Worker → Worker) (mc : Bool)
+    (hres : n.pending = none → n.worker.wasCanceled = false → Res score len emp (S n.worker.stream) n.worker)
     (hsta : ∀ p, n.pending = some p → StartOk score S p n.worker)
-    (hr : ∀ p, n.pending = some p → RunsAs score len S p n.worker (run n.worker) mc) :
+    (hpub : (∃ st, n.pending = some ⟨st, true⟩) ∨ Pub (S n.worker.stream) n.worker)
+    (hr : ∀ p, n.pending = some p → RunsAs score len S emp p n.worker (run n.worker) mc) :
     (n.joinRun run).pending = none ∧ (n.joinRun run).snapshot = n.snapshot ∧
-    ((n.joinRun run).worker.wasCanceled = false → Res score len (S (n.joinRun run).worker.stream) (n.joinRun run).worker) := by
+    ((n.joinRun run).worker.wasCanceled = false → Res score len emp (S (n.joinRun run).worker.stream) (n.joinRun run).worker) := by
   have hf := joinRun_fields n run
   refine ⟨hf.2.2.2.1, hf.2.2.2.2.1, ?_⟩
   unfold Nucleo.joinRun
@@ -265,55 +203,67 @@ theorem join_snap (n : Nucleo) (run : Worker → Worker) (mc : Bool)
   | some p =>
     simp only [Option.isSome_some, if_true]
     intro hwc
-    obtain ⟨r, hs⟩ := join_res score len S p n.worker (run n.worker) mc (hsta p hp) (hr p hp) hwc
+    have hpub' : p.cleared = false → Pub (S n.worker.stream) n.worker := by
+      intro hc
+      rcases hpub with ⟨st, h⟩ | h
+      · rw [hp] at h
+        have : p = ⟨st, true⟩ := Option.some.inj h
+        rw [this] at hc; cases hc
+      · exact h
+    obtain ⟨r, hs⟩ := join_res score len S emp hemp p n.worker (run n.worker) mc (hsta p hp) hpub' (hr p hp) hwc
     rw [hs]; exact r
 
 /-- the first `tick_inner` of a cancelling tick -/
-theorem cancelFirst_snap (n : Nucleo) (o : TickOracle) (hsnap : SnapOk score len S n.snapshot)
-    (hres : n.pending = none → n.worker.wasCanceled = false → Res score len (S n.worker.stream) n.worker)
+theorem cancelFirst_snap (hemp : EmpOk score emp) (n : Nucleo) (o : TickOracle) (hsnap : SnapOk score len S emp n.snapshot)
+    (hres : n.pending = none → n.worker.wasCanceled = false → Res score len emp (S n.worker.stream) n.worker)
     (hsta : ∀ p, n.pending = some p → StartOk score S p n.worker)
-    (hr : ∀ p, n.pending = some p → RunsAs score len S p n.worker (o.run0 n.worker) true) :
-    SnapOk score len S (n.tickCancelFirst o).1.snapshot := by
-  have j := join_snap score len S ({ n with status := .unchanged, cancelFlag := true } : Nucleo) o.run0 true hres hsta hr
-  show SnapOk score len S (tickInnerLocked (({ n with status := .unchanged, cancelFlag := true } : Nucleo).joinRun o.run0) true n.status o.count1).1.snapshot
-  exact (locked_snap score len S _ true n.status o.count1 j.1 (by rw [j.2.1]; exact hsnap) j.2.2).1
+    (hpub : (∃ st, n.pending = some ⟨st, true⟩) ∨ Pub (S n.worker.stream) n.worker)
+    (hr : ∀ p, n.pending = some p → RunsAs score len S emp p n.worker (o.run0 n.worker) true) :
+    SnapOk score len S emp (n.tickCancelFirst o).1.snapshot := by
+  have j := join_snap score len S emp hemp ({ n with status := .unchanged, cancelFlag := true } : Nucleo) o.run0 true hres hsta hpub hr
+  show SnapOk score len S emp (tickInnerLocked (({ n with status := .unchanged, cancelFlag := true } : Nucleo).joinRun o.run0) true n.status o.count1).1.snapshot
+  exact (locked_snap score len S emp _ true n.status o.count1 j.1 (by rw [j.2.1]; exact hsnap) j.2.2).1
 
 /-- **one `tick`** preserves the invariant -/
-theorem Q06.tick {n : Nucleo} (h : Q06 score len S n) (o : TickOracle) (env : TickEnv07 score len S n o) :
-    Q06 score len S (n.tick o).1 := by
-  have hP := (h.p.tick score len S o env).1
-  have key : SnapOk score len S (n.tick o).1.snapshot ∧
+theorem Q06.tick (hemp : EmpOk score emp) {n : Nucleo} (h : Q06 score len S emp n) (o : TickOracle) (env : TickEnv07 score len S emp n o) :
+    Q06 score len S emp (n.tick o).1 := by
+  have hP := (h.p.tick score len S emp hemp o env).1
+  have key : SnapOk score len S emp (n.tick o).1.snapshot ∧
       ((n.tick o).1.pending = none → (n.tick o).1.worker.wasCanceled = false →
-        Res score len (S (n.tick o).1.worker.stream) (n.tick o).1.worker) := by
+        Res score len emp (S (n.tick o).1.worker.stream) (n.tick o).1.worker) := by
     unfold Nucleo.tick
     simp only
     have hc0 : ({ n with shouldNotify := false } : Nucleo).tickCancels = n.tickCancels := rfl
     rw [hc0]
-    have h0 : P07 score S ({ n with shouldNotify := false } : Nucleo) := ⟨h.p.idle, h.p.mirror, h.p.pat, h.p.upd, h.p.str, h.p.btw, h.p.sta⟩
+    have h0 : P07 score S ({ n with shouldNotify := false } : Nucleo) := ⟨h.p.idle, h.p.mirror, h.p.pat, h.p.upd, h.p.str, h.p.btw, h.p.sta, h.p.pub⟩
     by_cases hc : n.tickCancels = true
     · simp only [hc, if_true]
       have hr0 : ∀ p, ({ n with shouldNotify := false } : Nucleo).pending = some p →
-          RunsAs score len S p ({ n with shouldNotify := false } : Nucleo).worker (o.run0 ({ n with shouldNotify := false } : Nucleo).worker) true := by
+          RunsAs score len S emp p ({ n with shouldNotify := false } : Nucleo).worker (o.run0 ({ n with shouldNotify := false } : Nucleo).worker) true := by
         intro p hp
         have := env.run0 p hp
         rw [hc] at this; exact this
-      obtain ⟨_, f2, _, _, _, _, _, f8⟩ := cancelFirst07 score len S _ h0 o hr0 hc
-      have s1 := cancelFirst_snap score len S ({ n with shouldNotify := false } : Nucleo) o h.snap h.res h.p.sta hr0
+      obtain ⟨_, f2, _, _, _, _, _, f8, f9⟩ := cancelFirst07 score len S emp hemp _ h0 o hr0 hc
+      have s1 := cancelFirst_snap score len S emp hemp ({ n with shouldNotify := false } : Nucleo) o h.snap h.res h.p.sta h.p.pub hr0
       have hrun1 := env.run1 hc
-      generalize ({ n with shouldNotify := false } : Nucleo).tickCancelFirst o = r1 at f2 f8 s1 hrun1
+      generalize ({ n with shouldNotify := false } : Nucleo).tickCancelFirst o = r1 at f2 f8 f9 s1 hrun1
       unfold Nucleo.tickSecond
       by_cases hl : o.lock2 = true
       · simp only [hl, if_true]
-        have j := join_snap score len S r1.1 o.run1 false (fun hp' => by rw [f2] at hp'; cases hp')
-          (fun q hq => by rw [f2] at hq; cases hq; exact f8) hrun1
-        exact locked_snap score len S _ false .unchanged o.count2 j.1 (by rw [j.2.1]; exact s1) j.2.2
+        have hpubd : (∃ st, r1.1.pending = some ⟨st, true⟩) ∨ Pub (S r1.1.worker.stream) r1.1.worker := by
+          cases hcl : n.state.canceled with
+          | true => exact Or.inl ⟨n.status, by rw [f2, hcl]⟩
+          | false => exact Or.inr (f9 hcl)
+        have j := join_snap score len S emp hemp r1.1 o.run1 false (fun hp' => by rw [f2] at hp'; cases hp')
+          (fun q hq => by rw [f2] at hq; cases hq; exact f8) hpubd hrun1
+        exact locked_snap score len S emp _ false .unchanged o.count2 j.1 (by rw [j.2.1]; exact s1) j.2.2
       · simp only [hl, Bool.false_eq_true, if_false]
         unfold tickInnerTimeout
         exact ⟨s1, fun hp => by rw [f2] at hp; cases hp⟩
     · have hc' : n.tickCancels = false := by simpa using hc
       simp only [hc', Bool.false_eq_true, if_false]
       have hr0 : ∀ p, ({ n with shouldNotify := false } : Nucleo).pending = some p →
-          RunsAs score len S p ({ n with shouldNotify := false } : Nucleo).worker (o.run0 ({ n with shouldNotify := false } : Nucleo).worker) false := by
+          RunsAs score len S emp p ({ n with shouldNotify := false } : Nucleo).worker (o.run0 ({ n with shouldNotify := false } : Nucleo).worker) false := by
         intro p hp
         have := env.run0 p hp
         rw [hc'] at this; exact this
@@ -321,11 +271,11 @@ theorem Q06.tick {n : Nucleo} (h : Q06 score len S n) (o : TickOracle) (env : Ti
       split
       · unfold tickInnerTimeout
         exact ⟨h.snap, h.res⟩
-      · have j := join_snap score len S ({ n with shouldNotify := false } : Nucleo) o.run0 false h.res h.p.sta hr0
-        exact locked_snap score len S _ false .unchanged o.count1 j.1 (by rw [j.2.1]; exact h.snap) j.2.2
+      · have j := join_snap score len S emp hemp ({ n with shouldNotify := false } : Nucleo) o.run0 false h.res h.p.sta h.p.pub hr0
+        exact locked_snap score len S emp _ false .unchanged o.count1 j.1 (by rw [j.2.1]; exact h.snap) j.2.2
   exact ⟨hP, key.1, key.2⟩
 
-theorem Q06.step {n : Nucleo} (h : Q06 score len S n) (e : Ev) (hok : EvOk07 score len S n e) : Q06 score len S (Nu.applyEv n e) := by
+theorem Q06.step (hemp : EmpOk score emp) {n : Nucleo} (h : Q06 score len S emp n) (e : Ev) (hok : EvOk07 score len S emp n e) : Q06 score len S emp (Nu.applyEv n e) := by
   cases e with
   | inj k => exact ⟨h.p.addInjector score S k, h.snap, h.res⟩
   | clone a b =>
@@ -333,25 +283,25 @@ theorem Q06.step {n : Nucleo} (h : Q06 score len S n) (e : Ev) (hok : EvOk07 sco
         (n.cloneInjector a b).snapshot = n.snapshot := by
       unfold Nucleo.cloneInjector; split <;> exact ⟨rfl, rfl, rfl⟩
     refine ⟨h.p.cloneInjector score S a b, ?_, ?_⟩
-    · show SnapOk score len S (n.cloneInjector a b).snapshot
+    · show SnapOk score len S emp (n.cloneInjector a b).snapshot
       rw [hf.2.2]; exact h.snap
     · show (n.cloneInjector a b).pending = none → (n.cloneInjector a b).worker.wasCanceled = false →
-        Res score len (S (n.cloneInjector a b).worker.stream) (n.cloneInjector a b).worker
+        Res score len emp (S (n.cloneInjector a b).worker.stream) (n.cloneInjector a b).worker
       rw [hf.1, hf.2.1]; exact h.res
   | drop k => exact ⟨h.p.dropInjector score S k, h.snap, h.res⟩
-  | restart c => exact h.restart score len S c
+  | restart c => exact h.restart score len S emp c
   | reparse p s => exact ⟨h.p.reparse score S p s hok, h.snap, h.res⟩
-  | tick o => exact h.tick score len S o hok
+  | tick o => exact h.tick score len S emp hemp o hok
 
-theorem Q06.history : ∀ (evs : List Ev) (n : Nucleo), Q06 score len S n → okHist07 score len S n evs →
-    Q06 score len S (evs.foldl Nu.applyEv n) := by
+theorem Q06.history (hemp : EmpOk score emp) : ∀ (evs : List Ev) (n : Nucleo), Q06 score len S emp n → okHist07 score len S emp n evs →
+    Q06 score len S emp (evs.foldl Nu.applyEv n) := by
   intro evs
   induction evs with
   | nil => intro n h _; exact h
   | cons e es ih =>
     intro n h hok
     simp only [List.foldl_cons]
-    exact ih _ (h.step score len S e hok.1) hok.2
+    exact ih _ (h.step score len S emp hemp e hok.1) hok.2
 
 /-- what a reader of a snapshot can rely on -/
 structure SnapshotConsistent (snap : Snapshot) (P : List Nat) : Prop where
@@ -364,8 +314,10 @@ structure SnapshotConsistent (snap : Snapshot) (P : List Nat) : Prop where
   item : ∀ m ∈ snap.hits, ∃ it, S snap.stream m.idx = some it ∧ score snap.pattern it = some m.score ∧ m.idx ∈ P
   /-- no item appears twice -/
   once : (snap.hits.map (·.idx)).Nodup
-  /-- descending score, then ascending length of the item, then ascending index -/
-  order : snap.hits.Pairwise (mle len (S snap.stream))
+  /-- a non-empty pattern: descending score, then ascending length of the item, then ascending index -/
+  order : emp snap.pattern = false → snap.hits.Pairwise (mle len (S snap.stream))
+  /-- the empty pattern: every item of `P` with score 0, in insertion (index) order -/
+  insertion : emp snap.pattern = true → (snap.hits.map (·.idx)).Pairwise (· < ·) ∧ ∀ m ∈ snap.hits, m.score = 0
 
 theorem idealHits_mem (Sx : Nat → Option Item) (p : Nat) (P : List Nat) (m : Match) (h : m ∈ idealHits score Sx p P) :
     ∃ it, Sx m.idx = some it ∧ score p it = some m.score ∧ m.idx ∈ P := by
@@ -384,13 +336,14 @@ theorem idealHits_mem (Sx : Nat → Option Item) (p : Nat) (P : List Nat) (m : M
       subst he
       exact ⟨it, hs, hsc, hi⟩
 
-theorem SnapOk.consistent {snap : Snapshot} (h : SnapOk score len S snap) : ∃ P, SnapshotConsistent score len S snap P := by
+theorem SnapOk.consistent {snap : Snapshot} (h : SnapOk score len S emp snap) : ∃ P, SnapshotConsistent score len S emp snap P := by
   obtain ⟨w, r, e⟩ := h
   have e1 : snap.hits = w.hits := by rw [e]; rfl
   have e2 : snap.pattern = w.pattern := by rw [e]; rfl
   have e3 : snap.stream = w.stream := by rw [e]; rfl
   have e4 : snap.itemCount = w.itemCount := by rw [e]; rfl
-  refine ⟨processed w, keepIdx_nodup _ _, ?_, by rw [e1, e2, e3]; exact r.good.right, ?_, ?_, by rw [e1, e3]; exact r.sorted⟩
+  refine ⟨processed w, keepIdx_nodup _ _, ?_, by rw [e1, e2, e3]; exact r.good.right, ?_, ?_,
+    fun he => by rw [e1, e3]; exact r.sorted (by rw [← e2]; exact he), fun he => ?_⟩
   · rw [e4]; unfold Worker.itemCount processed
     rw [keepIdx_length _ _ r.good.bk.below r.good.bk.nodup]
   · intro m hm
@@ -400,31 +353,70 @@ theorem SnapOk.consistent {snap : Snapshot} (h : SnapOk score len S snap) : ∃ 
   · rw [e1]
     have := (r.good.right.map (·.idx)).nodup_iff.mpr (by rw [idealHits_idx]; exact (keepIdx_nodup _ _).filter _)
     exact this
+  · have hh := r.insertion (by rw [← e2]; exact he)
+    rw [e1, hh]
+    refine ⟨?_, fun m hm => ?_⟩
+    · rw [List.map_map]
+      have : (fun m : Match => m.idx) ∘ mk0 = id := rfl
+      rw [this, List.map_id]
+      unfold processed keepIdx
+      exact List.pairwise_lt_range.filter _
+    · obtain ⟨i, _, rfl⟩ := List.mem_map.mp hm
+      rfl
 
 /-- **C06 at the level of the protocol**: after every history of injector(), clone, drop, reparse, restart(true|false) and
     tick events — ticks that complete or time out, runs that complete or are cancelled at an arbitrary point, every lock
     outcome — the snapshot is consistent: its matches are exactly the items its pattern matches (with that pattern's
     scores) among a duplicate-free set of initialised items of its stream whose size is the reported item count, no item
     twice, in sorted order. -/
-theorem C06_protocol (evs : List Ev) (hok : okHist07 score len S Nucleo.new evs) :
-    ∃ P, SnapshotConsistent score len S (evs.foldl applyEv Nucleo.new).snapshot P :=
-  (Q06.history score len S evs Nucleo.new (Q06.new score len S) hok).snap.consistent score len S
+theorem C06_protocol (hemp : EmpOk score emp) (evs : List Ev) (hok : okHist07 score len S emp Nucleo.new evs) :
+    ∃ P, SnapshotConsistent score len S emp (evs.foldl applyEv Nucleo.new).snapshot P :=
+  (Q06.history score len S emp hemp evs Nucleo.new (Q06.new score len S emp) hok).snap.consistent score len S emp
 
 /-- the hypotheses can be met by a history that produces a non-empty snapshot: two items (7 and 9) are published on the
     first stream, the first tick's run sees them, completes in time, and the snapshot lists both with the pattern's score,
     the shorter item first -/
 example :
     let score : Nat → Item → Option Nat := fun _ _ => some 5
+    let emp : Nat → Bool := fun _ => false
     let len : Item → Nat := fun it => it
     let S : Nat → Nat → Option Item := fun _ i => if i = 0 then some 9 else if i = 1 then some 7 else none
     let obs : Obs := { seen0 := fun _ => none, seen1 := S 0, count := 2, inFlightOrder := id, sawCancel := fun _ => false,
                        sortCanceled := false, shouldNotify := false }
     let run : Worker → Worker := fun w => (Worker.run score len w .unchanged true false obs).1
     let o : TickOracle := { count1 := 2, count2 := 2, lock1 := true, lock2 := true, run0 := run, run1 := run }
-    okHist07 score len S Nucleo.new [.tick o] ∧
+    EmpOk score emp ∧ okHist07 score len S emp Nucleo.new [.tick o] ∧
       ([Ev.tick o].foldl applyEv Nucleo.new).snapshot.hits = [⟨5, 1⟩, ⟨5, 0⟩] ∧ ([Ev.tick o].foldl applyEv Nucleo.new).snapshot.itemCount = 2 := by
-  intro score len S obs run o
-  refine ⟨⟨⟨fun p hp => by simp [Nucleo.new] at hp, fun _ p hp => ?_⟩, trivial⟩, by decide, by decide⟩
+  intro score emp len S obs run o
+  refine ⟨fun p it h => by simp [emp] at h, ⟨⟨fun p hp => by simp [Nucleo.new] at hp, fun _ p hp => ?_⟩, trivial⟩, by decide, by decide⟩
+  have hp' : p = ⟨.unchanged, true⟩ := by
+    have : (({ Nucleo.new with shouldNotify := false } : Nucleo).tickCancelFirst o).1.pending = some ⟨.unchanged, true⟩ := by decide
+    rw [this] at hp; exact (Option.some.inj hp).symm
+  subst hp'
+  refine ⟨obs, rfl, ?_⟩
+  have renv : ∀ w : Worker, RunEnv (S w.stream) w.clearedState obs := by
+    intro w
+    refine ⟨fun i it h => ?_, fun i it h => h, fun i h _ => ?_, Nat.zero_le _, ?_, fun _ => ⟨rfl, rfl⟩, rfl, fun l => List.Perm.refl l⟩
+    · cases h
+    · simp [Worker.clearedState] at h
+    · show 2 < PLACE; simp [PLACE]
+  exact ⟨(renv _).obsEnv, Or.inr (renv _)⟩
+
+/-- the same history when pattern 0 is the empty pattern (as it is on a new matcher): the run takes the trivial path and the
+    snapshot lists both items with score 0 in insertion order (the longer item 9 first) -/
+example :
+    let score : Nat → Item → Option Nat := fun p _ => if p = 0 then some 0 else some 5
+    let emp : Nat → Bool := fun p => p == 0
+    let len : Item → Nat := fun it => it
+    let S : Nat → Nat → Option Item := fun _ i => if i = 0 then some 9 else if i = 1 then some 7 else none
+    let obs : Obs := { seen0 := fun _ => none, seen1 := S 0, count := 2, inFlightOrder := id, sawCancel := fun _ => false,
+                       sortCanceled := false, shouldNotify := false }
+    let run : Worker → Worker := fun w => (Worker.run score len w .unchanged true (emp w.pattern) obs).1
+    let o : TickOracle := { count1 := 2, count2 := 2, lock1 := true, lock2 := true, run0 := run, run1 := run }
+    EmpOk score emp ∧ okHist07 score len S emp Nucleo.new [.tick o] ∧
+      ([Ev.tick o].foldl applyEv Nucleo.new).snapshot.hits = [⟨0, 0⟩, ⟨0, 1⟩] ∧ ([Ev.tick o].foldl applyEv Nucleo.new).snapshot.itemCount = 2 := by
+  intro score emp len S obs run o
+  refine ⟨fun p it h => by simp [emp] at h; simp [score, h], ⟨⟨fun p hp => by simp [Nucleo.new] at hp, fun _ p hp => ?_⟩, trivial⟩, by decide, by decide⟩
   have hp' : p = ⟨.unchanged, true⟩ := by
     have : (({ Nucleo.new with shouldNotify := false } : Nucleo).tickCancelFirst o).1.pending = some ⟨.unchanged, true⟩ := by decide
     rw [this] at hp; exact (Option.some.inj hp).symm
